@@ -35,12 +35,12 @@ FIELD_PROPS = {
         "cache": ["C06", "C11"],
     },
     "mem": {
-        "ret": ["C02", "C17", "C13", "C18", "C14"],
+        "ret": ["C02", "C17", "C13", "C18", "C14", "C16"],
         "leaves": ["C13", "C05", "C14", "C18"],
         "piped": ["C13"],
         "usage": ["C05"],
         "entries": ["C05"],
-        "has": ["C02", "C05", "C13", "C17"],
+        "has": ["C02", "C05", "C13", "C17", "C16"],
         "held": ["C18"],
         "stable": ["C02", "C18"],
         "victims": ["C05", "C14"],
@@ -281,6 +281,32 @@ PROPS = {
                         "sequences keep increasing across restarts is part of the recovery model (C04 / C01)",
                         "a crash in the middle of a page write is covered by C04's crash enumeration, not here"],
     },
+    "C16": {
+        "domain": "mem",
+        "proof_module": "FoyerProofs.C16",
+        "theorems": [
+            "Foyer.C16.callbacks_after_unlock", "Foyer.C16.no_callback", "Foyer.C16.reentrant_inv", "Foyer.C16.lock_order_acyclic",
+            "Foyer.C05.no_panic", "Foyer.step_inv",
+        ],
+        "monitor_props": ["C16"],
+        # every observed field belongs to C16 here: a callback that sees another state or never returns
+        "reject_is_fail_fields": ["ret"],
+        "campaigns": {
+            "quick": [{"name": "mem-reentrant", "args": ["mode=oracle", "cases=1500", "maxops=30", "cb=1", "watchdog=20"]}],
+            "thorough": [{"name": "mem-reentrant", "args": ["mode=oracle", "cases=40000", "maxops=60", "cb=1", "watchdog=30"]},
+                         {"name": "mem-reentrant-algo", "args": ["mode=algo", "cases=20000", "maxops=60", "cb=1", "watchdog=30"]}],
+        },
+        "nontrivial": r"nested=1",
+        "rule": "single-shard caches of all five algorithms whose EventListener re-enters the same cache from inside on_leave "
+                "(contains / get+drop / insert of a fresh key / remove), while weighter and filter are ordinary closures; random op "
+                "sequences; each operation runs under a watchdog (no progress for 20 s = deadlock, reported with the operation); the "
+                "nested operations' results and the state they observe are compared with the model's post-unlock semantics; "
+                "non-trivial = at least one nested (re-entrant) operation; distinct = distinct (cfg, op sequence)",
+        "trusted_base": TB_COMMON,
+        "assumptions": MEM_ASSUME + ["that no lock is held during callbacks is exhibited for the real code by absence of deadlock and by "
+                                     "state agreement, not proved; key/value destructors and the hybrid cache's locks (keeper, block "
+                                     "manager, indexer) are not yet exercised re-entrantly (thorough multi-threaded deadlock detection: TODO)"],
+    },
     "C05": {
         "domain": "mem",
         "proof_module": "FoyerProofs.C05",
@@ -385,5 +411,15 @@ CLAIMS.update({
                     "remove -> close/crash -> reopen path rests on the recovery model of C04/C01); wrap-around beyond capacity is "
                     "exercised by the correspondence but not covered by the theorem",
             "technique": "Lean 4 proof (image invariant by induction over the history) + trace-validating correspondence on raw device bytes"},
+})
+CLAIMS.update({
+    "C16": {"text": "Lean 4 theorems about the re-entrant semantics of the memory-cache model: notifications are delivered after the "
+                    "operation's critical section; for every callback behaviour and nesting depth the nested operations are ordinary "
+                    "steps that keep the invariant and never panic; the lock nesting table of the memory cache is acyclic. Tied to "
+                    "/repo by running a listener that re-enters the same single-shard cache under a watchdog and comparing what the "
+                    "nested operations return and observe with the model",
+            "note": MEM_NOTE + "; PARTIAL: memory cache with a re-entrant listener only; destructor re-entrancy, hybrid-cache locks and "
+                    "multi-threaded lock-order detection are not covered yet",
+            "technique": "Lean 4 proof (re-entrant step semantics preserves the invariant for all callbacks) + watchdog'd re-entrant correspondence"},
 })
 NOT_CLAIMED = {}
